@@ -339,6 +339,37 @@ def debug_name_probes(chk, w2c2, root):
     shutil.rmtree(pdir, ignore_errors=True)
 
 
+def blocked_output_probe(chk, w2c2, root):
+    """One of the implementation files cannot be created (a directory of that name is in the way). Whatever the options, a run that
+    reports success must have emitted every function exactly once; reporting failure is fine."""
+    m = hostile.many_funcs(23, 'all')
+    b = m.encode()
+    nf = len(m.funcs)
+    mdir = os.path.join(root, 'blocked')
+    os.makedirs(mdir, exist_ok=True)
+    mpath = os.path.join(mdir, 'blk.wasm')
+    open(mpath, 'wb').write(b)
+    for f, t in ((4, 1), (4, 4), (1, 8), (6, 2), (3, 16)):
+        nfiles = (nf + f - 1) // f
+        for kpos in (0, 1, nfiles // 2, nfiles - 1):
+            d = os.path.join(mdir, 'f%d-t%d-k%d' % (f, t, kpos))
+            shutil.rmtree(d, ignore_errors=True)
+            os.makedirs(os.path.join(d, 's%010d.c' % kpos))
+            r = env.run([w2c2, '-f', str(f), '-t', str(t), mpath, os.path.join(d, 'blk.c')], cwd=d, env=env.SAN_ENV, timeout=120)
+            chk.ev()
+            chk.distinct(('blocked-output', f, t, kpos))
+            if r.rc == 0:
+                files = {fn: open(os.path.join(d, fn), 'rb').read() for fn in os.listdir(d) if os.path.isfile(os.path.join(d, fn)) and fn.endswith('.c')}
+                funcs, dups, where = all_functions(files)
+                got = set(v[0] for v in funcs.values())
+                if dups or got != set(range(nf)):
+                    chk.violation('C09:emit-count:blocked-output', 'options -f %d -t %d with s%010d.c impossible to create: the translator reports success but functions %s are not emitted (duplicates %s)' % (
+                        f, t, kpos, sorted(set(range(nf)) - got)[:6], dups[:3]), {'module.wasm': b, 'cmd.txt': 'mkdir s%010d.c; w2c2 -f %d -t %d blk.wasm blk.c' % (kpos, f, t), 'stderr.txt': r.err[-2000:]})
+            elif r.rc is not None and r.rc < 0:
+                chk.violation('C09:signal:blocked-output', 'options -f %d -t %d with s%010d.c impossible to create: translator killed by signal %d' % (f, t, kpos, -r.rc), {'module.wasm': b, 'stderr.txt': r.err[-2000:]})
+            shutil.rmtree(d, ignore_errors=True)
+
+
 def main(chk):
     quick = chk.tier == 'quick'
     rnd = env.rng('c09')
@@ -587,6 +618,7 @@ def main(chk):
 
     debug_name_probes(chk, w2c2, root)
     hash_prefix_probe(chk, w2c2, root)
+    blocked_output_probe(chk, w2c2, root)
 
     # ---- h: TSan translator with yields at the hand-off points
     tsan = env.build_translator('tsan', guard=True)
